@@ -831,6 +831,33 @@ class Model:
     def c_RPOP(self, db, a):
         return self._pop(db, a, False)
 
+    def _bpop(self, db, a, left):
+        """Non-blocking outcome of BLPOP/BRPOP: first key holding an element is
+        popped; with none the call would block (modelled as the timeout reply)."""
+        if len(a) < 2:
+            return ERR
+        try:
+            t = float(a[-1])
+        except ValueError:
+            return ERR
+        if t < 0 or t != t:
+            return ERR
+        for k in a[:-1]:
+            e, wt = self._typed(db, k, "list")
+            if wt:
+                return ERR
+            if e is not None:
+                v = e.v.pop(0) if left else e.v.pop()
+                self._del_if_empty(db, k)
+                return [k, v]
+        return NULL_ARRAY
+
+    def c_BLPOP(self, db, a):
+        return self._bpop(db, a, True)
+
+    def c_BRPOP(self, db, a):
+        return self._bpop(db, a, False)
+
     def c_LLEN(self, db, a):
         if len(a) != 1:
             return ERR
